@@ -172,7 +172,10 @@ theorem write_refines (f : WriteFlags) (is : List Instance) (tracks : List Track
     cases hw : playWrite d is' with
     | error e => simp [hw] at h
     | ok calls =>
-      simp only [hw, pure, Except.pure, Except.ok.injEq] at h
+      simp only [hw] at h
+      by_cases hlong : pieceTicks goTicks is' > maxTicks
+      · simp [hlong, throw, throwThe, MonadExceptOf.throw] at h
+      simp only [hlong, if_false, pure, Except.pure, Except.ok.injEq] at h
       have hN : 1 ≤ N ∧ N ≤ maxTracks := by
         unfold prepareWrite at hp
         simp only [bind, Except.bind, pure, Except.pure] at hp
@@ -196,5 +199,22 @@ theorem write_refines (f : WriteFlags) (is : List Instance) (tracks : List Track
       obtain ⟨t, ht, hp0, htl⟩ := hr.2 i hi
       refine ⟨t, ht, hp0, ?_⟩
       rw [htl, l1, l2]; simp
+
+/-- a piece that `crd write` accepts is no longer than the largest delta time a midi file can hold (D22 fix) -/
+theorem write_fits (f : WriteFlags) (is : List Instance) (tracks : List Track) (h : cmdWriteTracks f is = .ok tracks) :
+    ∃ (d : Dict) (N : Nat) (is' : List Instance), prepareWrite f is = .ok (d, N, is') ∧ totalTicks goTicks is' ≤ maxTicks := by
+  unfold cmdWriteTracks at h
+  cases hp : prepareWrite f is with
+  | error e => simp [hp, bind, Except.bind] at h
+  | ok r =>
+    obtain ⟨d, N, is'⟩ := r
+    simp only [hp, bind, Except.bind] at h
+    cases hw : playWrite d is' with
+    | error e => simp [hw] at h
+    | ok calls =>
+      simp only [hw] at h
+      by_cases hlong : pieceTicks goTicks is' > maxTicks
+      · simp [hlong, throw, throwThe, MonadExceptOf.throw] at h
+      · exact ⟨d, N, is', rfl, by unfold totalTicks; unfold pieceTicks at hlong; omega⟩
 
 end Crd
